@@ -195,6 +195,8 @@ class Link:
                 if len(cur) >= maxwords - 1:
                     cur.append(tdt(0)); pages.append(cur)
                     cur = [ihw(s.lanes), tdh(nodata=0, cont=1, **tdh_args)]
+                    if R.random() < 0.25:      # a CDW may open the data of any payload, also of a continuation page
+                        cur.append(cdw(user=R.getrandbits(48), index=0))
                 cur.append(w)
             cur.append(tdt(1))
         pages.append(cur)
@@ -216,7 +218,7 @@ def alp_chip_min(kind, lane_id, bc):
     return b''.join(bytes([0xE0 | c, bc]) for c in range(7))
 
 
-def conforming_stream(R, nlinks=None, max_hbf=4, layers=None, df=None, ver=None, mode=None, hits=True):
+def conforming_stream(R, nlinks=None, max_hbf=4, layers=None, df=None, ver=None, mode=None, hits=True, min_hbf=1):
     """returns (pkts, meta): a conforming multi-link stream as a list of Pkt in file order"""
     nl = nlinks if nlinks is not None else R.randint(1, 6)
     # RDH version and data format are per-link properties (each link validator learns its own header id;
@@ -233,7 +235,7 @@ def conforming_stream(R, nlinks=None, max_hbf=4, layers=None, df=None, ver=None,
             if (layer, stave) not in used: break
         used.add((layer, stave))
         links.append(Link(R, l if nl <= 12 else l % 12, layer, stave, R.choice([0, 2]) if mix_df else df, R.choice([6, 7]) if mix_ver else ver))
-    seqs = [sum((lk.hbf(hits=hits) for _ in range(R.randint(1, max_hbf))), []) for lk in links]
+    seqs = [sum((lk.hbf(hits=hits) for _ in range(R.randint(min_hbf, max(min_hbf, max_hbf)))), []) for lk in links]
     mode = mode or R.choice(['contig', 'rr', 'rand'])
     out = []
     if mode == 'contig':
